@@ -33,3 +33,20 @@ Print Assumptions C03_constants_current.
 Theorem C03_every_leaf_flagged : forall r l n, map fst (leaf_flags r l n) = all_leaves n.
 Proof. exact leaf_flags_ids. Qed.
 Print Assumptions C03_every_leaf_flagged.
+
+(* "random in the call" is decided per call and does not leak: whatever operations came before - calls that returned,
+   failed or raised while being prepared or in a callback, list appends, construction - with no call in progress no field
+   model is flagged as solved-for or holds a solver node (Rand/Flags.v; the workers read exactly this from the real field
+   models after every operation of every scenario); so a field outside the roots of a call is never flagged during it, and an
+   element appended between calls starts out as a constant of later calls that only refer to it *)
+From PV Require Import Rand.Flags Rand.FlagsProofs.
+Theorem C03_no_flag_survives_a_call : forall l, busy (run [] l) = false.
+Proof. exact never_busy_between_calls. Qed.
+Print Assumptions C03_no_flag_survives_a_call.
+Theorem C03_outside_the_call_never_flagged : forall l subtree r j,
+  (j < length (run [] l))%nat -> ~ In j subtree -> used (get (in_progress (run [] l) subtree r) j) = false.
+Proof. intros l subtree r j. apply outside_the_call_never_flagged. apply run_idle. constructor. Qed.
+Print Assumptions C03_outside_the_call_never_flagged.
+Theorem C03_appended_element_not_flagged : forall l lst, used (get (run [] (l ++ [OAppend lst])) (length (run [] l))) = false.
+Proof. exact appended_element_not_flagged. Qed.
+Print Assumptions C03_appended_element_not_flagged.
